@@ -201,7 +201,7 @@ class _Builder:
 
 @st.composite
 def determined_network(draw, noise=1, dims=None, free=False, allow_cov=True, all_axes=True,
-                       n_max=8, omit=True, heights_dh=True):
+                       n_max=8, omit=True, heights_dh=True, isotropic=False):
     """A geometrically determined network built by recipes.
     noise: 0 exact observations, 1 errors of about one sigma.
     free: no fixed coordinates - the datum is carried by constrained points (C08)."""
@@ -353,10 +353,12 @@ def determined_network(draw, noise=1, dims=None, free=False, allow_cov=True, all
         clusters.append({"k": "hdiff", "obs": B.hd, "cov": cov})
     if B.coords:
         dim = sum(len(o["e"]) for o in B.coords)
-        clusters.append({"k": "coords", "obs": B.coords, "cov": draw(cov_for([B.sd["coord"]] * dim, allow_cov))})
+        clusters.append({"k": "coords", "obs": B.coords,
+                         "cov": _iso(dim, B.sd["coord"]) if isotropic else draw(cov_for([B.sd["coord"]] * dim, allow_cov))})
     if B.vectors:
+        dim = 3 * len(B.vectors)
         clusters.append({"k": "vectors", "obs": B.vectors,
-                         "cov": draw(cov_for([B.sd["coord"]] * (3 * len(B.vectors)), allow_cov))})
+                         "cov": _iso(dim, B.sd["coord"]) if isotropic else draw(cov_for([B.sd["coord"]] * dim, allow_cov))})
     clusters = [clusters[i] for i in draw(st.permutations(list(range(len(clusters)))))]
     params = {"sigma-apr": draw(st.sampled_from([1, 2.5, 10, 10, 25])),
               "conf-pr": draw(st.sampled_from([0.95, 0.9, 0.99, 0.5, 0.999])),
@@ -367,6 +369,10 @@ def determined_network(draw, noise=1, dims=None, free=False, allow_cov=True, all
     if free:
         _make_free(draw, net)
     return net
+
+
+def _iso(dim, sd):
+    return {"band": 0, "C": (np.eye(dim) * sd * sd).tolist()}
 
 
 def _make_free(draw, net):
